@@ -153,7 +153,7 @@ def run_case(case, sched):
             raise InvalidCase("C06 is stated for finite diagrams")
     A = dgmgen.materialize(inp["dgm1"], inp.get("rep1", "f64"))
     B = dgmgen.materialize(inp["dgm2"], inp.get("rep2", "f64"))
-    S, T = placeholder(inp["dgm1"]), placeholder(inp["dgm2"])
+    S, T = placeholder(dgmgen.as_points(A)), placeholder(dgmgen.as_points(B))
     coords = [abs(x) for p in list(S) + list(T) for x in p]
     scale = max(max(coords), 1e-300)
     wf = cfg.get("warn_filter", "always")
